@@ -5,6 +5,7 @@ mod project;
 mod subsets;
 mod variants;
 mod fraction;
+mod meta;
 mod prec;
 mod sym;
 mod util;
@@ -20,6 +21,7 @@ fn main() {
         "calls" => calls::main(&args[1..]),
         "docs" => docs::main(&args[1..]),
         "subsets" => subsets::main(&args[1..]),
+        "meta" => meta::main(&args[1..]),
         "variants" => variants::main(&args[1..]),
         "fraction" => fraction::main(&args[1..]),
         "selfcheck" => println!("ok"),
